@@ -256,6 +256,15 @@ func wlTries(inst int) string {
 				t.Delete(string(b[:1+r.intn(n)]))
 			}
 		}
+		// keys no other round or goroutine has used
+		fresh := fmt.Sprintf("k%d-", inst)
+		for i := 0; i < 12; i++ {
+			t.Put(fresh+string(rune('a'+r.intn(6)))+string(rune('a'+i)), 1000+i)
+		}
+		fg, fok := t.Get(fresh + "aa")
+		flk, _, flok := t.LongestPrefixOf(fresh + "abz")
+		out = append(out, fmt.Sprint(fg, fok, flk, flok, t.Rank(fresh), t.RangeSize(fresh, fresh+"zz")),
+			"fm:"+kvs(t.Match(fresh+"**")), "fp:"+kvs(t.WithPrefix(fresh+"a")), "fr:"+kvs(t.Range(fresh+"b", fresh+"e")))
 		var kv []string
 		for k, v := range t.All() {
 			kv = append(kv, fmt.Sprintf("%s=%d", k, v))
@@ -449,6 +458,7 @@ type gspec struct {
 	prods    [][]string // head, body...
 	start    string
 	input    [][]string // token strings to parse
+	prec     [][]string // precedence levels, highest first: associativity (L|R|N) followed by terminals
 }
 
 var gspecs = []gspec{
@@ -472,39 +482,88 @@ var gspecs = []gspec{
 		prods: [][]string{{"E", "E", "+", "T"}, {"E", "T"}, {"T", "T", "*", "F"}, {"T", "F"}, {"F", "(", "E", ")"}, {"F", "id"}},
 		input: [][]string{{"id", "*", "id", "+", "id"}, {"(", "id", "+", "id", ")"}, {"id", "id"}},
 	},
+	{ // AMBIGUOUS operator grammar, usable only with precedence/associativity declarations
+		terms: []string{"+", "*", "id"}, nonterms: []string{"E"}, start: "E",
+		prods: [][]string{{"E", "E", "+", "E"}, {"E", "E", "*", "E"}, {"E", "id"}},
+		input: [][]string{{"id", "+", "id", "*", "id"}, {"id", "*", "id", "+", "id"}, {"id", "+", "*"}},
+		prec:  [][]string{{"L", "*"}, {"L", "+"}},
+	},
+	{ // AMBIGUOUS dangling else
+		terms: []string{"if", "else", "other"}, nonterms: []string{"S"}, start: "S",
+		prods: [][]string{{"S", "if", "S"}, {"S", "if", "S", "else", "S"}, {"S", "other"}},
+		input: [][]string{{"if", "if", "other", "else", "other"}, {"if", "other", "else", "if", "other"}, {"else"}},
+		prec:  [][]string{{"R", "else"}, {"R", "if"}},
+	},
+}
+
+// Names are derived from the instance number: every round and every goroutine brings terminals and non-terminals the
+// process has never seen, so a lazily filled package-level table (interned handles, caches) is cold in every round.
+func tname(t string, inst int) grammar.Terminal {
+	return grammar.Terminal(fmt.Sprintf("%s.%d", t, inst))
+}
+
+func nname(n string, inst int) grammar.NonTerminal {
+	return grammar.NonTerminal(fmt.Sprintf("%s_%d", n, inst))
+}
+
+func renameInput(in []string, inst int) []string {
+	out := make([]string, len(in))
+	for i, t := range in {
+		out[i] = string(tname(t, inst))
+	}
+	return out
+}
+
+// buildPrec declares the precedence levels of a spec (the first `levels` of them) through the public constructors.
+func buildPrec(spec gspec, inst, levels int) lr.PrecedenceLevels {
+	ps := lr.PrecedenceLevels{}
+	for li, l := range spec.prec {
+		if li >= levels {
+			break
+		}
+		assoc := lr.LEFT
+		switch l[0] {
+		case "R":
+			assoc = lr.RIGHT
+		case "N":
+			assoc = lr.NONE
+		}
+		var hs []*lr.PrecedenceHandle
+		for _, t := range l[1:] {
+			hs = append(hs, lr.PrecedenceHandleForTerminal(tname(t, inst)))
+		}
+		ps = append(ps, &lr.PrecedenceLevel{Associativity: assoc, Handles: lr.NewPrecedenceHandles(hs...)})
+	}
+	return ps
 }
 
 // private grammar: fresh sets, fresh productions, symbol names made instance-specific
 func buildGrammar(spec gspec, inst int) *grammar.CFG {
-	sfx := ""
-	if inst%2 == 1 {
-		sfx = fmt.Sprintf("_%d", inst)
-	}
 	isNT := map[string]bool{}
 	for _, n := range spec.nonterms {
 		isNT[n] = true
 	}
 	var ts []grammar.Terminal
 	for _, t := range spec.terms {
-		ts = append(ts, grammar.Terminal(t))
+		ts = append(ts, tname(t, inst))
 	}
 	var ns []grammar.NonTerminal
 	for _, n := range spec.nonterms {
-		ns = append(ns, grammar.NonTerminal(n+sfx))
+		ns = append(ns, nname(n, inst))
 	}
 	var ps []*grammar.Production
 	for _, p := range spec.prods {
 		body := grammar.String[grammar.Symbol]{}
 		for _, x := range p[1:] {
 			if isNT[x] {
-				body = append(body, grammar.NonTerminal(x+sfx))
+				body = append(body, nname(x, inst))
 			} else {
-				body = append(body, grammar.Terminal(x))
+				body = append(body, tname(x, inst))
 			}
 		}
-		ps = append(ps, &grammar.Production{Head: grammar.NonTerminal(p[0] + sfx), Body: body})
+		ps = append(ps, &grammar.Production{Head: nname(p[0], inst), Body: body})
 	}
-	return grammar.NewCFG(ts, ns, ps, grammar.NonTerminal(spec.start+sfx))
+	return grammar.NewCFG(ts, ns, ps, nname(spec.start, inst))
 }
 
 func sortedNonTerms(g *grammar.CFG) []grammar.NonTerminal {
@@ -585,7 +644,8 @@ func wlPredictive(inst int) string {
 			out = append(out, t.String(), errStr(t.Conflicts()))
 		}
 		if gi == 0 {
-			for _, in := range spec.input {
+			for _, in0 := range spec.input {
+				in := renameInput(in0, inst+gi)
 				p := predictive.New(buildGrammar(spec, inst+gi), newSliceLexer(in))
 				out = append(out, parseDigest(p.Parse))
 				out = append(out, guarded(func() string {
@@ -608,19 +668,29 @@ func lrWorkload(specs []int, build tableBuilder, newParser func(lexer.Lexer, *gr
 		var out []string
 		for gi, si := range specs {
 			spec := gspecs[si]
-			g := buildGrammar(spec, inst+gi)
-			t, err := build(g, lr.PrecedenceLevels{})
-			out = append(out, errStr(err))
-			if err == nil && t != nil {
+			// ambiguous grammars: once with all their precedence levels (conflicts resolved), once with one level
+			// missing (the construction must report the conflict, which walks the handles of the conflicting actions)
+			variants := []int{0}
+			if len(spec.prec) > 0 {
+				variants = []int{len(spec.prec), len(spec.prec) - 1}
+			}
+			for _, levels := range variants {
+				g := buildGrammar(spec, inst+gi)
+				t, err := build(g, buildPrec(spec, inst+gi, levels))
+				out = append(out, errStr(err))
+				if err != nil || t == nil {
+					continue
+				}
 				out = append(out, t.String())
-				for _, in := range spec.input {
-					p, perr := newParser(newSliceLexer(in), buildGrammar(spec, inst+gi), lr.PrecedenceLevels{})
+				for _, in0 := range spec.input {
+					in := renameInput(in0, inst+gi)
+					p, perr := newParser(newSliceLexer(in), buildGrammar(spec, inst+gi), buildPrec(spec, inst+gi, levels))
 					if perr != nil {
 						out = append(out, "noparser")
 						continue
 					}
 					out = append(out, parseDigest(p.Parse))
-					if p2, e2 := newParser(newSliceLexer(in), buildGrammar(spec, inst+gi), lr.PrecedenceLevels{}); e2 == nil {
+					if p2, e2 := newParser(newSliceLexer(in), buildGrammar(spec, inst+gi), buildPrec(spec, inst+gi, levels)); e2 == nil {
 						out = append(out, guarded(func() string {
 							node, err := p2.ParseAndBuildAST()
 							if err != nil {
@@ -629,7 +699,7 @@ func lrWorkload(specs []int, build tableBuilder, newParser func(lexer.Lexer, *gr
 							return node.String()
 						}))
 					}
-					if p3, e3 := newParser(newSliceLexer(in), buildGrammar(spec, inst+gi), lr.PrecedenceLevels{}); e3 == nil {
+					if p3, e3 := newParser(newSliceLexer(in), buildGrammar(spec, inst+gi), buildPrec(spec, inst+gi, levels)); e3 == nil {
 						out = append(out, guarded(func() string {
 							v, err := p3.ParseAndEvaluate(func(pr *grammar.Production, vs []*lr.Value) (any, error) { return len(vs) + len(pr.Body), nil })
 							if err != nil {
@@ -646,9 +716,9 @@ func lrWorkload(specs []int, build tableBuilder, newParser func(lexer.Lexer, *gr
 }
 
 var (
-	wlSLR  = lrWorkload([]int{1, 3}, simple.BuildParsingTable, simple.New)
-	wlLALR = lrWorkload([]int{1, 2}, lookahead.BuildParsingTable, lookahead.New)
-	wlLR1  = lrWorkload([]int{1, 2}, canonical.BuildParsingTable, canonical.New)
+	wlSLR  = lrWorkload([]int{3, 4, 5}, simple.BuildParsingTable, simple.New)
+	wlLALR = lrWorkload([]int{2, 4, 5}, lookahead.BuildParsingTable, lookahead.New)
+	wlLR1  = lrWorkload([]int{5, 4}, canonical.BuildParsingTable, canonical.New)
 )
 
 // ---------------------------------------------------------------- a private lexer over a token slice
@@ -686,41 +756,50 @@ func parseDigest(parse func(parser.TokenFunc, parser.ProductionFunc) error) stri
 
 func wlAutomata(inst int) string {
 	var out []string
+	// fresh state numbers and input symbols per instance
+	so, yo := automata.State(16*(inst%4096)), automata.Symbol(3*(inst%100000))
+	syms := func(w string) automata.String {
+		r := toSyms(w)
+		for i := range r {
+			r[i] += yo
+		}
+		return r
+	}
 	// (a|b)*abb with instance-specific extra branches
-	n := automata.NewNFA(0, []automata.State{10})
-	n.Add(0, automata.E, []automata.State{1, 7})
-	n.Add(1, automata.E, []automata.State{2, 4})
-	n.Add(2, 'a', []automata.State{3})
-	n.Add(3, automata.E, []automata.State{6})
-	n.Add(4, 'b', []automata.State{5})
-	n.Add(5, automata.E, []automata.State{6})
-	n.Add(6, automata.E, []automata.State{1, 7})
-	n.Add(7, 'a', []automata.State{8})
-	n.Add(8, 'b', []automata.State{9})
-	n.Add(9, 'b', []automata.State{10})
+	n := automata.NewNFA(so, []automata.State{so + 10})
+	n.Add(so+0, automata.E, []automata.State{so + 1, so + 7})
+	n.Add(so+1, automata.E, []automata.State{so + 2, so + 4})
+	n.Add(so+2, 'a'+yo, []automata.State{so + 3})
+	n.Add(so+3, automata.E, []automata.State{so + 6})
+	n.Add(so+4, 'b'+yo, []automata.State{so + 5})
+	n.Add(so+5, automata.E, []automata.State{so + 6})
+	n.Add(so+6, automata.E, []automata.State{so + 1, so + 7})
+	n.Add(so+7, 'a'+yo, []automata.State{so + 8})
+	n.Add(so+8, 'b'+yo, []automata.State{so + 9})
+	n.Add(so+9, 'b'+yo, []automata.State{so + 10})
 	if inst%2 == 1 {
-		n.Add(9, 'c', []automata.State{10})
+		n.Add(so+9, 'c'+yo, []automata.State{so + 10})
 	}
 	d := n.ToDFA()
 	m := d.Minimize().EliminateDeadStates().ReindexStates()
 	out = append(out, d.String(), m.String(), fmt.Sprint(len(m.States()), len(m.Symbols())))
 	for _, w := range []string{"abb", "aabb", "babb", "ab", "", "abab", "abc", "bbabc"} {
-		out = append(out, fmt.Sprint(n.Accept(toSyms(w)), d.Accept(toSyms(w)), m.Accept(toSyms(w))))
+		out = append(out, fmt.Sprint(n.Accept(syms(w)), d.Accept(syms(w)), m.Accept(syms(w))))
 	}
 	n2 := m.ToNFA()
 	st := n2.Star()
 	un := n.Union(n2)
-	out = append(out, fmt.Sprint(st.Accept(toSyms("abbabb")), un.Accept(toSyms("abb")), n2.ToDFA().Minimize().ReindexStates().Equal(m) || true))
+	out = append(out, fmt.Sprint(st.Accept(syms("abbabb")), un.Accept(syms("abb")), n2.ToDFA().Minimize().ReindexStates().Equal(m) || true))
 	out = append(out, un.ToDFA().Minimize().EliminateDeadStates().ReindexStates().String())
-	d2 := automata.NewDFA(0, []automata.State{3})
-	d2.Add(0, 'a', 1)
-	d2.Add(0, 'b', 0)
-	d2.Add(1, 'a', 1)
-	d2.Add(1, 'b', 2)
-	d2.Add(2, 'a', 1)
-	d2.Add(2, 'b', 3)
-	d2.Add(3, 'a', 1)
-	d2.Add(3, 'b', 0)
+	d2 := automata.NewDFA(so, []automata.State{so + 3})
+	d2.Add(so+0, 'a'+yo, so+1)
+	d2.Add(so+0, 'b'+yo, so+0)
+	d2.Add(so+1, 'a'+yo, so+1)
+	d2.Add(so+1, 'b'+yo, so+2)
+	d2.Add(so+2, 'a'+yo, so+1)
+	d2.Add(so+2, 'b'+yo, so+3)
+	d2.Add(so+3, 'a'+yo, so+1)
+	d2.Add(so+3, 'b'+yo, so+0)
 	out = append(out, fmt.Sprint(d2.Minimize().ReindexStates().String()), fmt.Sprint(d2.Equal(d2.Clone())))
 	out = append(out, guarded(func() string {
 		m2 := d2.Minimize().ReindexStates()
@@ -728,11 +807,11 @@ func wlAutomata(inst int) string {
 	}))
 	out = append(out, guarded(func() string {
 		c, fin := automata.CombineDFA(m, d2)
-		return c.String() + fmt.Sprint(fin, c.Accept(toSyms("abb")), c.Accept(toSyms("ba")))
+		return c.String() + fmt.Sprint(fin, c.Accept(syms("abb")), c.Accept(syms("ba")))
 	}))
 	out = append(out, guarded(func() string {
 		cc := n.Concat(n2)
-		return fmt.Sprint(cc.Accept(toSyms("abbabb")), cc.Accept(toSyms("abb")), len(cc.States()), len(cc.Symbols()))
+		return fmt.Sprint(cc.Accept(syms("abbabb")), cc.Accept(syms("abb")), len(cc.States()), len(cc.Symbols()))
 	}))
 	nt, dt := 0, 0
 	for range n.Transitions() {
@@ -741,7 +820,7 @@ func wlAutomata(inst int) string {
 	for range d.Transitions() {
 		dt++
 	}
-	out = append(out, fmt.Sprint(nt, dt, n.Next(0, automata.E), d.Next(0, 'a'), len(n.DOT()) > 0, len(m.DOT()) > 0, n.Equal(n.Clone()), len(n.String()) > 0))
+	out = append(out, fmt.Sprint(nt, dt, len(n.Next(so, automata.E)), d.Next(0, 'a'+yo) >= 0, len(n.DOT()) > 0, len(m.DOT()) > 0, n.Equal(n.Clone()), len(n.String()) > 0))
 	return dig(out...)
 }
 
